@@ -8,7 +8,7 @@ from hypothesis import strategies as st
 from .. import gen
 from ..common import TOL, Crash, graph_from_json, guarded, inconclusive, invalid_config, ok, violation
 from ..inexact import Instance
-from ..models import CYC_CLASSES, run_model, solver_artifact, timed_out
+from ..models import CYC_CLASSES, ConstraintSpec, run_model, solver_artifact, timed_out
 from ..oracle import bf
 from ..oracle.routes import check_route
 
@@ -38,22 +38,24 @@ def strategy(tier):
     return gen.model_cases(classes=CLASSES, max_nodes=6 if big else 5, p_opts=0, p_constr=6, p_ignore=4, p_se=4, p_node=4, k_slack=1)
 
 
-def constraint_pred(inst, fam_mults, constraints, coverage, cyc):
+def constraint_pred(inst, fam_mults, constraints, coverage, cyc, spec=None):
+    """predicate over index tuples into fam_mults (edge-level multiplicity vectors): every constraint is contained, to the
+    requested count- or length-coverage, in ONE chosen route.  `spec` (models.ConstraintSpec) carries lengths if any."""
     if not constraints:
         return None
-    cons = []
-    for c in constraints:
-        if inst.node_mode:
-            cons.append([inst.ne[v] for v in c])
-        else:
-            cons.append([tuple(e) for e in c])
+    conv = (lambda x: inst.ne[x]) if inst.node_mode else (lambda x: tuple(x))
+    cons = [[conv(x) for x in c] for c in constraints]
     if cyc:
         cons = [list(dict.fromkeys(c)) for c in cons]
+    if spec is not None and spec.lengths is not None:
+        lens = {conv(x): l for x, l in spec.lengths.items()}
+    else:
+        lens = {}
 
     def pred(sub):
         for c in cons:
-            need = len(c) * coverage
-            if not any(sum(1 for e in c if fam_mults[i].get(e, 0) > 0) >= need - 1e-9 for i in sub):
+            need = sum(lens.get(e, 1) for e in c) * coverage
+            if not any(sum(lens.get(e, 1) for e in c if fam_mults[i].get(e, 0) > 0) >= need - 1e-9 for i in sub):
                 return False
         return True
 
@@ -88,11 +90,14 @@ def run_case(case, tier="quick"):
             return invalid_config("fractional data with int type")
         if any(not (0 <= s <= 1) for s in inst.scale.values()):
             return invalid_config("scale")
+        spec = ConstraintSpec(case, G)
         constraints = kw.get("subset_constraints" if cyc else "subpath_constraints", [])
-        coverage = kw.get("subset_constraints_coverage" if cyc else "subpath_constraints_coverage", 1.0)
+        coverage = spec.coverage
     except Exception as e:
         return invalid_config(f"malformed case {e!r}")
     labels = {cls, f"wt:{wt}", "node" if inst.node_mode else "edge"}
+    if spec.by_length:
+        labels.add("length_coverage")
     for f_ in ("elements_to_ignore", "error_scaling", "additional_starts", "additional_ends"):
         if kw.get(f_):
             labels.add("kw:" + f_)
@@ -114,7 +119,7 @@ def run_case(case, tier="quick"):
         fam = inst.dag_paths(limit=12)
         if fam is not None:
             mults, paths = fam
-            pred = constraint_pred(inst, mults, constraints, coverage, cyc)
+            pred = constraint_pred(inst, mults, constraints, coverage, cyc, spec)
             best, bset, tried, complete = bf.best_over_route_sets("lae", mults, k, inst.f_req, inst.scale, wt, pred)
             if complete:
                 ref, exact = best, True
@@ -123,7 +128,7 @@ def run_case(case, tier="quick"):
         B = 3 if tier == "quick" else 5
         vecs, complete_fam = inst.walk_family(B, limit=40)
         if len(vecs) ** min(k, 2) <= 1600 or k == 1:
-            pred = constraint_pred(inst, vecs, constraints, coverage, cyc)
+            pred = constraint_pred(inst, vecs, constraints, coverage, cyc, spec)
             best, bset, tried, complete = bf.best_over_route_sets("lae", vecs, min(k, 2 if len(vecs) > 12 else k), inst.f_req, inst.scale, wt, pred, max_sets=1600)
             ref = best
             ref_desc = [dict(vecs[i]) for i in bset] if bset is not None else None
@@ -133,7 +138,7 @@ def run_case(case, tier="quick"):
         try:
             pm = [inst.mult_of(p) for p, _w in planted]
             ok_pl = all(check_route(G, list(p), inst.starts, inst.ends, simple=not cyc) is None for p, _w in planted)
-            pred = constraint_pred(inst, pm, constraints, coverage, cyc)
+            pred = constraint_pred(inst, pm, constraints, coverage, cyc, spec)
             if ok_pl and (pred is None or pred(tuple(range(len(pm))))):
                 st_, obj, _ = bf.fixed_routes("lae", pm, inst.f_req, inst.scale, wt)
                 if st_ == "optimal" and (ref is None or obj < ref - 1e-9):
